@@ -74,6 +74,10 @@ Fixpoint run_reduce {B} (op : B -> B -> B) (e : B) (f : A -> B) (t : tree) (p : 
   end.
 End Drivers.
 
+(* rayon::iter::Map: MapProducer { base, map_op } splits the base and maps the items of each leaf *)
+Definition pmap {P A B} (f : A -> B) (D : producer P A) : producer P B :=
+  mk_producer _ _ (p_split D) (fun p => map f (p_items D p)) (p_len D).
+
 (* split points a driver may use on a producer of length n: lo <= k <= n at every node (lo = 1 for the 1-D producer, whose
    split_at computes `index - 1` on usize; lo = 0 for the 2-D one).  rayon's bridge uses 1 <= k = len/2 <= len-1. *)
 Fixpoint admissible (lo : nat) (t : tree) (n : nat) : Prop :=
